@@ -87,6 +87,9 @@ def _expected_violation(ck, module, cfg, inv):
     ck.tlc_runs.append(dict(res.summary(cfg), expected_violation=inv))
 
 
+_written = set()
+
+
 def _replay(ck, binary, mode, path, label, counts):
     rc, out, err = _hrun([binary, mode, path])
     summ = _parse(out, "SUMMARY")
@@ -106,11 +109,14 @@ def _replay(ck, binary, mode, path, label, counts):
         counts[k] = counts.get(k, 0) + v
     for f in _parse(out, "FAIL"):
         rp = ck.replay_file("%s-%s.ndjson" % (mode, f["key"].replace(":", "_").replace("/", "_")))
-        # a self-contained artefact: the failing line of the export (plus its header for words)
-        with open(rp, "w") as o:
-            o.write(json.dumps({"replay": mode, "key": f["key"], "why": f["why"], "scenario": f["scenario"]}) + "\n")
-            for line in _find_lines(path, mode, f["scenario"]):
-                o.write(line)
+        # a self-contained artefact: the failing line of the export (plus its header for words); the first
+        # scenario of a key is the one that is reported, later exports do not overwrite it
+        if f["key"] not in _written:
+            _written.add(f["key"])
+            with open(rp, "w") as o:
+                o.write(json.dumps({"replay": mode, "key": f["key"], "why": f["why"], "scenario": f["scenario"]}) + "\n")
+                for line in _find_lines(path, mode, f["scenario"]):
+                    o.write(line)
         ck.violation(f["key"], "%s [%d of %d scenarios of %s] first: %s" %
                      (f["why"], summ["fail_keys"].get(f["key"], 1), summ["scenarios"], label,
                       json.dumps(f["scenario"])[:700]), rp)
@@ -171,6 +177,9 @@ REJECT_TEXT = {
 
 def run(tier):
     ck = Check(PID, tier, "model_checking")
+    _written.clear()
+    for old in os.listdir(ck.replay_dir):     # artefacts of earlier runs would only mislead
+        os.remove(os.path.join(ck.replay_dir, old))
     ck.assumptions += ["CoverageAutomaton reads mutually exclusive propositions (documented)",
                        "letters handed to the factories' automata are total valuations",
                        "DisjunctionAutomaton over an empty list is not judged",
@@ -302,7 +311,8 @@ def run(tier):
             while b < len(evs) and evs[b]["e"] != "Reset":
                 b += 1
             rp = ck.replay_file("trace-%s.ndjson" % key.replace(":", "_").replace("(", "").replace(")", "").replace(",", "_"))
-            if not os.path.exists(rp) or ck.violation_counts.get(key, 0) == 0:
+            if key not in _written:
+                _written.add(key)
                 vlib.write_ndjson(rp, evs[a:b])
             ck.violation(key, "%s: line %d of the recorded execution is refused by the contract (%s): %s" %
                          (REJECT_TEXT.get(o["why"], o["why"]), ln, o["why"], json.dumps(evs[ln - 1])[:500]), rp)
